@@ -203,10 +203,9 @@ func (calc Calculator) isPortfolioAccount(a *model.Account) bool {
 
 // Performance computes the portfolio performance.
 func Performance(dpv *journal.Performance) float64 {
-	var (
-		v0, v1          float64
-		inflow, outflow = dpv.PortfolioInflow, dpv.PortfolioOutflow
-	)
+	// internal flows - those reallocated among commodities as well as the unallocated
+	// PortfolioInflow / PortfolioOutflow - cancel on the level of the whole portfolio
+	var v0, v1, inflow, outflow float64
 	// floating point sums depend on the order of the terms: always add in the same order
 	v0, v1 = sum(dpv.V0), sum(dpv.V1)
 	inflow += sum(dpv.Inflow)
